@@ -51,6 +51,10 @@ type SAct struct {
 	Changes []SChange `json:"changes,omitempty"`
 	Peer    []SPeer   `json:"peer,omitempty"`
 	N       int       `json:"n,omitempty"`
+	// Held (app): the application's write transaction is OPEN (holding the LMDB write lock) when the loop is
+	// released from this yield point, and commits a moment later: whatever the loop reads before it gets the
+	// lock itself (env.Info, earlier transaction ids) is stale by the time its own transaction starts.
+	Held bool `json:"held,omitempty"`
 }
 
 type LoopCase struct {
@@ -74,6 +78,8 @@ type LoopCase struct {
 	// recorded by LMDB - Lightning Stream's own transactions of that kind must not be confused with the
 	// application's.
 	SweeperRuns bool `json:"sweeper_runs,omitempty"`
+	// Pad: header_extra_padding_block (values written by merges carry an 8-byte extension block)
+	Pad bool `json:"pad,omitempty"`
 	// OwnAtStart: the instance has run before - a previous life uploaded its start data and was stopped -
 	// so its own snapshot is in the bucket at start-up and has to be loaded before anything is uploaded;
 	// its download fails a few times first, which stretches the "waiting for the own snapshot" phase.
@@ -97,6 +103,8 @@ type loopStats struct {
 	appBetween  bool // an application commit fell between two LS transactions (not at sync.iter / before-sleep)
 	mergeAfter  bool // a merge followed such a commit
 	excludedF9  int
+	held         int // application transactions that held the write lock while the loop ran on
+	txnIDChecked int // entries whose header transaction id was checked after Lightning Stream (re)wrote them
 	lsEmptyApp  int
 	idleReached bool
 	stores      int
@@ -163,7 +171,7 @@ func runLoopCase(c LoopCase, o *vcore.Obs) (*loopStats, error) {
 	if c.Sweeper {
 		conf.Sweeper = config.Sweeper{Enabled: true, RetentionDays: 370, Interval: time.Hour, FirstInterval: time.Hour, LockDuration: time.Millisecond, ReleaseDuration: time.Millisecond}
 	}
-	lc := config.LMDB{SchemaTracksChanges: c.Native}
+	lc := config.LMDB{SchemaTracksChanges: c.Native, HeaderExtraPaddingBlock: c.Pad}
 	h := b.Handle("a")
 	hk := hooks.New()
 	if c.Native {
@@ -223,17 +231,25 @@ func runLoopCase(c LoopCase, o *vcore.Obs) (*loopStats, error) {
 		}
 	}
 	appRecorded := false // LMDB recorded at least one application transaction
-	var commitInner func(changes []SChange, startup bool) error
+	var commitInner func(changes []SChange, startup bool, hold func()) error
 	commit := func(changes []SChange, startup bool) error {
 		before := lm.LastTxnID(env.Env)
-		err := commitInner(changes, startup)
+		err := commitInner(changes, startup, nil)
 		if lm.LastTxnID(env.Env) != before {
 			appRecorded = true
 		}
 		return err
 	}
-	commitInner = func(changes []SChange, startup bool) error {
-		return env.Update(func(txn *lmdb.Txn) error {
+	appTxnID := uint64(0)         // id of the application's most recent write transaction
+	appFloor := uint64(0)         // ... of the most recent one that certainly dirtied a page (LMDB recorded it)
+	appWrote := map[string]bool{} // dbi/key written by the application since the last transaction-id check
+	commitInner = func(changes []SChange, startup bool, hold func()) error {
+		dirty := false
+		err := env.Update(func(txn *lmdb.Txn) error {
+			appTxnID = uint64(txn.ID())
+			if hold != nil {
+				defer hold()
+			}
 			for _, ch := range changes {
 				dbiName := fleetDBIs[ch.DBI%len(fleetDBIs)]
 				key := fleetKeys[ch.Key%len(fleetKeys)]
@@ -245,6 +261,7 @@ func runLoopCase(c LoopCase, o *vcore.Obs) (*loopStats, error) {
 					local[dbiName] = map[string]Ver{}
 				}
 				del := ch.Op == "del"
+				appWrote[dbiName+"/"+string(key)] = true
 				if c.Native {
 					ts := ch.TS
 					if old, err := txn.Get(dbi, key); err == nil {
@@ -262,11 +279,16 @@ func runLoopCase(c LoopCase, o *vcore.Obs) (*loopStats, error) {
 					if err := txn.Put(dbi, key, model.BuildHeader(ts, uint64(txn.ID()), fl, nil, val), 0); err != nil {
 						return err
 					}
+					dirty = true
 					local[dbiName][string(key)] = Ver{TS: ts, Del: del, Val: val}
 				} else {
 					if del {
-						if err := txn.Del(dbi, key, nil); err != nil && !lmdb.IsNotFound(err) {
+						err := txn.Del(dbi, key, nil)
+						if err != nil && !lmdb.IsNotFound(err) {
 							return err
+						}
+						if err == nil {
+							dirty = true
 						}
 						mir.AppCreate(dbiName, "plain")
 						mir.AppDel(dbiName, key)
@@ -274,6 +296,7 @@ func runLoopCase(c LoopCase, o *vcore.Obs) (*loopStats, error) {
 						if err := txn.Put(dbi, key, ch.Val, 0); err != nil {
 							return err
 						}
+						dirty = true
 						mir.AppPut(dbiName, "plain", key, ch.Val)
 					}
 					touchedKeys[dbiName+"/"+string(key)] = true
@@ -281,6 +304,10 @@ func runLoopCase(c LoopCase, o *vcore.Obs) (*loopStats, error) {
 			}
 			return nil
 		})
+		if err == nil && dirty {
+			appFloor = appTxnID
+		}
+		return err
 	}
 	expected := func(dbi, k string) (VerSet, bool) {
 		var vs VerSet
@@ -392,6 +419,55 @@ func runLoopCase(c LoopCase, o *vcore.Obs) (*loopStats, error) {
 		return nil
 	}
 
+	// C14 inside the loop: every entry Lightning Stream writes or rewrites (native: the application's DBIs;
+	// shadow mode: the shadow DBIs) carries the id of the LMDB transaction that wrote it - i.e. an id
+	// above the last one recorded at the previous yield, above the application's own transaction if that
+	// came in between, and not above the last one recorded now.
+	var prevRaw map[string][]byte
+	prevLast := uint64(0)
+	checkTxnIDs := func(where string) error {
+		dump, err := lm.DumpEnv(env.Env)
+		if err != nil {
+			return err
+		}
+		cur := map[string][]byte{}
+		for _, d := range dump.DBIs {
+			isPriv := strings.HasPrefix(d.Name, syncer.SyncDBIPrefix)
+			if (c.Native && isPriv) || (!c.Native && !strings.HasPrefix(d.Name, syncer.SyncDBIShadowPrefix)) {
+				continue
+			}
+			for _, e := range d.Entries {
+				cur[d.Name+"/"+string(e.Key)] = e.Val
+			}
+		}
+		if prevRaw != nil && !c.AllowF9 {
+			lo := prevLast
+			if appFloor > lo {
+				lo = appFloor
+			}
+			for id, raw := range cur {
+				if old, ok := prevRaw[id]; ok && bytes.Equal(old, raw) {
+					continue
+				}
+				hh, err := model.ReadHeader(raw)
+				if err != nil {
+					continue // reported by the content oracle
+				}
+				if c.Native && appWrote[id] && hh.TxnID == appTxnID {
+					continue // the application's own write
+				}
+				st.txnIDChecked++
+				if hh.TxnID <= lo || hh.TxnID > uint64(dump.LastTxnID) {
+					return fmt.Errorf("%s: entry %x was (re)written by Lightning Stream since the previous yield and its header carries transaction id %d, but the transaction that wrote it has an id in (%d, %d] (last recorded id at the previous yield %d, application's last transaction %d)",
+						where, id, hh.TxnID, lo, dump.LastTxnID, prevLast, appFloor)
+				}
+			}
+		}
+		prevRaw, prevLast = cur, uint64(dump.LastTxnID)
+		appWrote = map[string]bool{}
+		return nil
+	}
+
 	if len(c.Start) > 0 {
 		if err := commit(c.Start, true); err != nil {
 			return st, fmt.Errorf("harness: start data: %v", err)
@@ -465,6 +541,19 @@ func runLoopCase(c LoopCase, o *vcore.Obs) (*loopStats, error) {
 	}
 	lastAppBetween := false
 	startupCaptured := false
+	var heldDone chan error
+	finishHeld := func() error {
+		if heldDone == nil {
+			return nil
+		}
+		err := <-heldDone
+		heldDone = nil
+		if appFloor == appTxnID {
+			appRecorded = true
+		}
+		return err
+	}
+	defer finishHeld() // (the environment must not be closed under an open transaction)
 	for steps := 0; steps < 4000; steps++ {
 		if y.Done {
 			return st, fmt.Errorf("sync loop ended unexpectedly at %s: %v", y.Point, y.Err)
@@ -520,6 +609,9 @@ func runLoopCase(c LoopCase, o *vcore.Obs) (*loopStats, error) {
 		if err := checkVisible(where); err != nil {
 			return st, err
 		}
+		if err := checkTxnIDs(where); err != nil {
+			return st, err
+		}
 		// next act?
 		if len(plan) > 0 {
 			a := plan[0]
@@ -567,7 +659,23 @@ func runLoopCase(c LoopCase, o *vcore.Obs) (*loopStats, error) {
 						// a commit before the start-up capture pass (which only runs when the LMDB had data at
 						// start) is stamped like data changed while the syncer was down (documented: treated
 						// differently from steady state)
-						if err := commit(a.Changes, y.Point == "sync.listed" && len(c.Start) > 0); err != nil {
+						if a.Held {
+							holding, release := make(chan struct{}), make(chan struct{})
+							done := make(chan error, 1)
+							changes := a.Changes
+							go func() {
+								done <- commitInner(changes, false, func() { close(holding); <-release })
+							}()
+							select {
+							case <-holding:
+							case <-time.After(20 * time.Second):
+								close(release)
+								return st, fmt.Errorf("harness: %s: the application could not get the LMDB write lock within 20 s", where)
+							}
+							go func() { time.Sleep(2 * time.Millisecond); close(release) }()
+							heldDone = done
+							st.held++
+						} else if err := commit(a.Changes, y.Point == "sync.listed" && len(c.Start) > 0); err != nil {
 							return st, fmt.Errorf("harness: app commit: %v", err)
 						}
 						iterDirty = true
@@ -579,8 +687,10 @@ func runLoopCase(c LoopCase, o *vcore.Obs) (*loopStats, error) {
 							st.appBetween = true
 							lastAppBetween = true
 						}
-						if err := checkVisible(where + " after the application's own commit"); err != nil {
-							return st, fmt.Errorf("harness/model disagreement: %v", err)
+						if heldDone == nil {
+							if err := checkVisible(where + " after the application's own commit"); err != nil {
+								return st, fmt.Errorf("harness/model disagreement: %v", err)
+							}
 						}
 					case "deliver":
 						// every published peer snapshot is downloaded exactly once (each is published only after
@@ -624,6 +734,9 @@ func runLoopCase(c LoopCase, o *vcore.Obs) (*loopStats, error) {
 			return st, fmt.Errorf("sync loop does not become idle: %d iterations after the last application write it still uploads or merges (stores so far %d)", iterations, countStores())
 		}
 		y, err = nd.Step()
+		if herr := finishHeld(); herr != nil {
+			return st, fmt.Errorf("harness: held app commit: %v", herr)
+		}
 		if err != nil {
 			return st, err
 		}
@@ -772,6 +885,8 @@ func classifyLoop(c LoopCase, st *loopStats, o *vcore.Obs) {
 	o.ClassIf(c.ReceiveOnly, "receive-only")
 	o.ClassIf(st.lsEmptyApp > 0, "app-commit-after-empty-ls-txn")
 	o.ClassIf(st.fallbacks > 0, "trigger-point-did-not-occur-fired-at-next-yield")
+	o.ClassIf(st.held > 0, "app-txn-held-the-write-lock-while-the-loop-ran-on")
+	o.ClassIf(st.txnIDChecked > 0, "header-txn-id-of-ls-written-entries-checked")
 }
 
 func checkLoopCase(c LoopCase, o *vcore.Obs) error {
@@ -827,6 +942,7 @@ func genLoopCase(t *rapid.T) LoopCase {
 	c.Force = rapid.IntRange(0, 5).Draw(t, "force") == 0
 	c.SweeperRuns = !c.Sweeper && rapid.IntRange(0, 4).Draw(t, "sweeper_runs") == 0
 	c.OwnAtStart = rapid.IntRange(0, 4).Draw(t, "own_at_start") == 0
+	c.Pad = rapid.IntRange(0, 3).Draw(t, "pad") == 0
 	nkeys := rapid.IntRange(1, 3).Draw(t, "nkeys")
 	if rapid.IntRange(0, 2).Draw(t, "start?") > 0 {
 		for i := 0; i < rapid.IntRange(1, 3).Draw(t, "nstart"); i++ {
@@ -853,6 +969,7 @@ func genLoopCase(t *rapid.T) LoopCase {
 			for j := 0; j < rapid.IntRange(1, 3).Draw(t, "nch"); j++ {
 				a.Changes = append(a.Changes, genSChange(t, &c, nkeys))
 			}
+			a.Held = rapid.IntRange(0, 2).Draw(t, "held") == 0
 		case "deliver":
 			a.Peer = genSPeer(t, &c, nkeys)
 		case "storefault":
@@ -865,7 +982,7 @@ func genLoopCase(t *rapid.T) LoopCase {
 
 func TestC03Loop(t *testing.T) {
 	vcore.Run(t, vcore.Config{Property: "C03", Inflight: true,
-		Rule: "real sync loop of one instance under the yield-point scheduler, a peer that publishes generated snapshots (native: timestamps interleaved with local ones, never equal; shadow: far in the past), native and shadow mode; a generated plan fires application commits (insert/overwrite/delete/new DBI/multi-key), peer deliveries and Store faults (< retry budget) at named yield points (12 points incl. between the end of an LMDB transaction and the following env.Info) or at the next yield; after EVERY yield the application-visible content must be the last-writer-wins winner of the application's last commit and the merged remote versions (C03); when the loop has been idle for two iterations the newest own snapshot must carry every application commit (C09); " +
+		Rule: "real sync loop of one instance under the yield-point scheduler, a peer that publishes generated snapshots (native: timestamps interleaved with local ones, never equal; shadow: far in the past), native and shadow mode; a generated plan fires application commits (insert/overwrite/delete/new DBI/multi-key), peer deliveries and Store faults (< retry budget) at named yield points (12 points incl. between the end of an LMDB transaction and the following env.Info) or at the next yield, a third of the commits with the write transaction still open when the loop is released (it commits 2 ms later, while the loop waits for the lock); after EVERY yield the application-visible content must be the last-writer-wins winner of the application's last commit and the merged remote versions (C03); when the loop has been idle for two iterations the newest own snapshot must carry every application commit (C09); " +
 			"non-trivial = an application commit at a yield point other than sync.iter/before-sleep, followed by a merge"},
 		genLoopCase, checkLoopCase)
 }
@@ -889,6 +1006,8 @@ type enumLoop struct {
 	Force       bool `json:"force,omitempty"`
 	SweeperRuns bool `json:"sweeper_runs,omitempty"`
 	OwnAtStart  bool `json:"own_at_start,omitempty"`
+	// Held: the application's transaction is open (holds the write lock) when the loop leaves the point
+	Held bool `json:"held,omitempty"`
 }
 
 func (e enumLoop) toCase() LoopCase {
@@ -934,7 +1053,7 @@ func (e enumLoop) toCase() LoopCase {
 		late = append(late, SPeer{DBI: 0, Key: 0, TS: peerTS(5), Del: true}, SPeer{DBI: 0, Key: 3, TS: peerTS(5), Del: true}, SPeer{DBI: 1, Key: 0, TS: peerTS(5), Del: true})
 	}
 	c.Plan = append(c.Plan,
-		SAct{Kind: "app", At: e.Point, Changes: ch},
+		SAct{Kind: "app", At: e.Point, Changes: ch, Held: e.Held},
 		SAct{Kind: "deliver", At: "sync.before-sleep", Peer: late})
 	return c
 }
@@ -942,7 +1061,7 @@ func (e enumLoop) toCase() LoopCase {
 func TestC03Enum(t *testing.T) {
 	points := loopYieldPoints[:nMainPoints]
 	vcore.RunEnum(t, vcore.Config{Property: "C03", Inflight: true,
-		Rule: "fault enumeration over a fixed scenario (instance starts with two keys, a peer snapshot is merged, the application commits once, a later peer snapshot is merged, loop runs until idle): EVERY yield point (12 named ones + the inside of the upload's read transaction in native mode) x kind of application change {insert, overwrite, delete, new DBI, multi-key} x {native, shadow} x {peer snapshot is a no-op, or not} x {another application commit precedes so that the iteration also captures and uploads, or not} - this covers Lightning Stream write transactions that turn out empty and ones that do not; plus the same commit in a second life that still waits for its own snapshot (download failing three times), next to a tomb sweeper that runs every millisecond without ever finding anything, with a forced snapshot in every iteration, with the tomb sweeper configured and stale peer markers for the keys it touches, after a same-value rewrite (a recorded application transaction with nothing to capture), and on a receive-only instance; C03 oracle after every yield, C09 oracle when idle; commits that match the listed known finding (transaction id reuse after an empty LS transaction) are deferred to the next yield and counted; " +
+		Rule: "fault enumeration over a fixed scenario (instance starts with two keys, a peer snapshot is merged, the application commits once, a later peer snapshot is merged, loop runs until idle): EVERY yield point (12 named ones + the inside of the upload's read transaction in native mode) x kind of application change {insert, overwrite, delete, new DBI, multi-key} x {native, shadow} x {peer snapshot is a no-op, or not} x {another application commit precedes so that the iteration also captures and uploads, or not} - this covers Lightning Stream write transactions that turn out empty and ones that do not; plus the same commit in a second life that still waits for its own snapshot (download failing three times), next to a tomb sweeper that runs every millisecond without ever finding anything, with a forced snapshot in every iteration, with the tomb sweeper configured and stale peer markers for the keys it touches, after a same-value rewrite (a recorded application transaction with nothing to capture), on a receive-only instance, and with the application's write transaction still open (holding the LMDB write lock) when the loop leaves the point, committing 2 ms later; C03 oracle after every yield, header transaction ids of everything Lightning Stream wrote since the previous yield (C14), C09 oracle when idle; commits that match the listed known finding (transaction id reuse after an empty LS transaction) are deferred to the next yield and counted; " +
 			"non-trivial = the commit fell between two LS transactions of one loop iteration"},
 		func(yield func(enumLoop) bool) {
 			for _, native := range []bool{true, false} {
@@ -976,6 +1095,13 @@ func TestC03Enum(t *testing.T) {
 						// with forced snapshots in every iteration
 						if !yield(enumLoop{Native: native, Point: p, Kind: k, PeerNoop: false, LocalFirst: false, Force: true}) {
 							return
+						}
+						// the application's transaction is still open when the loop leaves the point, and commits while
+						// the loop waits for the write lock (or, where it needs none, a moment later)
+						for _, lf := range []bool{false, true} {
+							if !yield(enumLoop{Native: native, Point: p, Kind: k, PeerNoop: false, LocalFirst: lf, Held: true}) {
+								return
+							}
 						}
 						// the same commit on a receive-only instance (captures, merges, never uploads)
 						if !yield(enumLoop{Native: native, Point: p, Kind: k, PeerNoop: false, LocalFirst: true, ReceiveOnly: true}) {
